@@ -15,6 +15,7 @@ PLAIN_CHECKS := $(call HAVE,c09 c08 c07 c06 c10 c15 c03 c02 c01 c19)
 ASAN_CHECKS  := $(call HAVE,c10 c19)
 TRACE_CHECKS := $(call HAVE,c09t)
 MPI_CHECKS   := $(call HAVE,c11 c12)
+ASAN_MPI_CHECKS := $(call HAVE,c11 c12)
 
 PLAIN_SIM := $(patsubst sim/%.cpp,$(B)/plain/sim_%.o,$(SIM_SRC))
 ASAN_SIM  := $(patsubst sim/%.cpp,$(B)/asan/sim_%.o,$(SIM_SRC))
@@ -23,7 +24,7 @@ TRACE_SIM := $(patsubst sim/%.cpp,$(B)/trace/sim_%.o,$(SIM_SRC)) $(B)/trace/sim_
 .PHONY: all plain asan trace mpi clean
 all: plain asan trace mpi
 plain: $(addprefix $(B)/plain/,$(PLAIN_CHECKS))
-asan:  $(addprefix $(B)/asan/,$(ASAN_CHECKS))
+asan:  $(addprefix $(B)/asan/,$(ASAN_CHECKS)) $(addprefix $(B)/asan/,$(ASAN_MPI_CHECKS))
 trace: $(addprefix $(B)/trace/,$(TRACE_CHECKS))
 mpi:   $(addprefix $(B)/plain/,$(MPI_CHECKS))
 
@@ -43,6 +44,11 @@ $(B)/trace/%.o: checks/%.cpp | $(B)/trace
 
 # MPI checks see sim/mpi_include/mpi.h instead of the system mpi.h and link the simulated MPI runtime
 $(B)/plain/c11.o $(B)/plain/c12.o: PLAIN_FLAGS += -Isim/mpi_include
+$(B)/asan/c11.o $(B)/asan/c12.o: ASAN_FLAGS += -Isim/mpi_include -fno-sanitize=null
+$(B)/asan/c11: $(B)/asan/c11.o $(ASAN_SIM) $(B)/asan/sim_mpi.o
+	$(CXX) -fsanitize=address,undefined $^ -o $@
+$(B)/asan/c12: $(B)/asan/c12.o $(ASAN_SIM) $(B)/asan/sim_mpi.o
+	$(CXX) -fsanitize=address,undefined $^ -o $@
 $(B)/plain/c11: $(B)/plain/c11.o $(PLAIN_SIM) $(B)/plain/sim_mpi.o
 	$(CXX) -no-pie $^ -o $@
 $(B)/plain/c12: $(B)/plain/c12.o $(PLAIN_SIM) $(B)/plain/sim_mpi.o
